@@ -34,6 +34,8 @@ func init() {
 			{ID: "C05.R15", Floor: 4, Run: variadicTargetForwarded, Text: "a given target is forwarded: in a method with a variadic Entity parameter, nothing reachable from the `len(target) > 0` edge calls an internal creator with its has-target flag constant false"},
 			{ID: "C05.R16", Floor: 10, Run: c16r4, Text: "relation test by type identity (= C16.R4): a component is a relation exactly when its first field is the embedded marker type; a name-only test makes foreign types relations and then legal operations panic"},
 			{ID: "C05.R17", Floor: 4, Run: noTargetNoRelationFlag, Text: "without a target no relation is claimed: code that runs only when no target was given never passes an (ID, flag, Entity) relation triple with a flag other than the constant false"},
+			{ID: "C05.R18", Floor: 2, Run: sameTargetSkipChecked, Text: "the same-target shortcut comes after the relation check (= C10.R16)"},
+			{ID: "C05.R19", Floor: 10, Run: freshRelationFilterPerCall, Text: "generic FilterN.Filter hands out a relation filter of its own for a per-call target (= C18.R22): a relation filter with target T keeps selecting the entities whose target is T"},
 		},
 	})
 }
